@@ -341,6 +341,7 @@ func genScript(t *rapid.T) Script {
 		}
 		h.IssuedAgoMs = rapid.SampledFrom([]int{0, 0, 0, 400, 1500, 2500, 100000}).Draw(t, "issuedAgoMs")
 		h.ScopeParam = rapid.SampledFrom([]string{"", "", "", "Scope", "SCOPE"}).Draw(t, "scopeParam")
+		h.ScopeSpelling = rapid.SampledFrom([]int{0, 0, 1, 1, 2}).Draw(t, "scopeSpelling")
 		h.IssuedAtLower = rapid.IntRange(0, 3).Draw(t, "issuedAtLower") == 0
 		if h.IssuedAgoMs == 0 {
 			h.ClockAheadMs = rapid.SampledFrom([]int{0, 0, 700, 2500, 100000}).Draw(t, "clockAheadMs")
@@ -387,7 +388,7 @@ func init() {
 	prop = &vt.Prop[Script]{
 		ID:   "C10",
 		Name: "TokensSufficientFreshOwn",
-		Rule: "1-3 registry hosts (incl. two that differ only in port) with credential kind {none, basic, refresh token, static access token}, challenge scope {exactly required, superset, unrelated, none} under the parameter name scope / Scope / SCOPE, token lifetimes {absent, 0, 1, 2, 3, 300 s} or a sequence of mixed lifetimes per host, token servers that hand out tokens issued 0.4-100 s earlier and say so in issued_at (expires_in counts from there; a quarter spell the timestamp with RFC 3339's lower-case t and z) or whose clock is 0.7-100 s ahead of the client's (issued_at in the client's future; the token lives expires_in from its receipt), token servers that grant / refuse over-wide requests with 401 / lack the POST endpoint / rotate refresh tokens / answer with the access_token field; timelines of 1-10 requests (GET/PUT on two repositories, pull+push requirements, desired scopes from a small lattice) separated by virtual sleeps {0, 0.5, 1, 1.5, 2.5, 61 s}, with optional concurrent batches whose members start 0-12 ms apart while a quarter of the registries take 3-10 ms - some 1.2 or 2.5 s, longer than a short-lived token lives - to deliver the body of a 401 (every 401, or only the first one) (so that challenges to different requests overlap: each challenged request comes back with a token that answers its own challenge); executed in a synctest bubble against an in-memory world that mints self-describing tokens and logs every arrival with the virtual time; oracle over the log: every bearer token presented to a host was issued for that host's service by the realm it named (or is its static token), is unexpired at arrival, covers the required scope when reused from cache and the challenge scope when acquired in this call; a cached token with >= 1 s left that covers the request => exactly one registry request and no token request; token requests ask for challenge+required+desired (the challenge scope alone after a refusal), with the challenge's own text when the union adds nothing; non-trivial = at least one cache reuse or one expiry; distinct = the script",
+		Rule: "1-3 registry hosts (incl. two that differ only in port) with credential kind {none, basic, refresh token, static access token}, challenge scope {exactly required, superset, unrelated, none}, spelled in canonical form, in descending order or with a group repeated, under the parameter name scope / Scope / SCOPE, token lifetimes {absent, 0, 1, 2, 3, 300 s} or a sequence of mixed lifetimes per host, token servers that hand out tokens issued 0.4-100 s earlier and say so in issued_at (expires_in counts from there; a quarter spell the timestamp with RFC 3339's lower-case t and z) or whose clock is 0.7-100 s ahead of the client's (issued_at in the client's future; the token lives expires_in from its receipt), token servers that grant / refuse over-wide requests with 401 / lack the POST endpoint / rotate refresh tokens / answer with the access_token field; timelines of 1-10 requests (GET/PUT on two repositories, pull+push requirements, desired scopes from a small lattice) separated by virtual sleeps {0, 0.5, 1, 1.5, 2.5, 61 s}, with optional concurrent batches whose members start 0-12 ms apart while a quarter of the registries take 3-10 ms - some 1.2 or 2.5 s, longer than a short-lived token lives - to deliver the body of a 401 (every 401, or only the first one) (so that challenges to different requests overlap: each challenged request comes back with a token that answers its own challenge); executed in a synctest bubble against an in-memory world that mints self-describing tokens and logs every arrival with the virtual time; oracle over the log: every bearer token presented to a host was issued for that host's service by the realm it named (or is its static token), is unexpired at arrival, covers the required scope when reused from cache and the challenge scope when acquired in this call; a cached token with >= 1 s left that covers the request => exactly one registry request and no token request; token requests ask for challenge+required+desired (the challenge scope alone after a refusal), with the challenge's own text when the union adds nothing; non-trivial = at least one cache reuse or one expiry; distinct = the script",
 		Gen:  genScript,
 		Run:  run,
 	}
